@@ -4,11 +4,22 @@
    write outcomes, crashes and restarts) and every population of ClusterCIDRs:
    every PATCH the controller issues carries CIDRs none of which overlaps a pod CIDR of any node
    that its node cache shows at that instant ("has been shown by its node feed").
-   Residue (not a theorem yet; monitored on the implementation's traces by the check): nodes whose
-   CIDRs the controller has itself written but whose update has not reached the cache yet are
-   protected by the reservation kept in the pools (the block stays a used key from the moment it
-   is reserved until the node is released). *)
-From NIPAM Require Import Sys Alloc_proofs Sys_proofs.
+   For nodes whose pod CIDRs the controller has itself written (their update may not have reached the
+   cache yet) the protection is the reservation kept in the pools.  Proved (Resv_proofs.v), for every
+   controller state satisfying MapInv -- i.e. every reachable one (C02) -- with
+   [Held m n c] := c is a used key of an entry of m with which node n is associated:
+   (1) a node work item that PATCHes CIDRs and succeeds -- or ends with the outcome of every write AND of
+       the read-back unknown -- leaves every written CIDR Held for that node;
+   (2) no PATCH of any node work item carries a CIDR overlapping a CIDR that is Held for anybody;
+   (3) Held is preserved by every allocating/occupying node work item, by every ClusterCIDR work item
+       (an entry with associated nodes is never unmapped), and by the release of any OTHER node whose own
+       pod CIDRs do not overlap it.
+   Residue (not a theorem; monitored on the implementation's traces): the world-level glue that a node's
+   reservation is released only through a deletion notification (or deleting sync) of that very node
+   name, and that the CIDRs carried by such notifications are the node's own (assumption E7 about pod
+   CIDRs pre-set by the environment; known findings K-TOMB, K-REPL are exactly failures of that glue
+   in the other direction: a release that never comes). *)
+From NIPAM Require Import Sys Alloc_proofs Sys_proofs Inv_proofs Resv_proofs.
 Open Scope N_scope.
 
 (* single step, any world *)
@@ -38,3 +49,29 @@ Theorem C01_reserved_block_is_fresh :
     get_entry m1 p = Some c1 /\ cc_occupy c1 x = Ok c2 /\ m' = set_entry m1 p c2.
 Proof. exact allocate_cidr_fresh. Qed.
 Print Assumptions C01_reserved_block_is_fresh.
+
+(* (1)+(2)+(3a): one node work item (the node is not being deleted) *)
+Theorem C01_written_cidrs_stay_reserved_and_are_avoided :
+  forall po lab canp apisame held m cached reread outs m' r fx,
+  MapInv m -> (forall n, cached = Some n -> wf_node n /\ n_deleting n = false) -> r <> Panic ->
+  sync_node po lab canp apisame held m cached reread outs = (m', r, fx) ->
+  (forall name c, Held m name c -> Held m' name c) /\
+  (forall nm cs o, In (FxPatch nm cs o) fx -> forall name k, Held m name k -> forall x, In x cs -> overlapb x k = false) /\
+  (forall nm cs o, In (FxPatch nm cs o) fx -> r = Ok tt \/ In (FxGetNode nm false) fx -> forall x, In x cs -> Held m' nm x).
+Proof. exact sync_node_keeps. Qed.
+Print Assumptions C01_written_cidrs_stay_reserved_and_are_avoided.
+
+(* (3b): ClusterCIDR work items (creation, deletion request, vanished object) never drop a reservation *)
+Theorem C01_reservations_survive_clustercidr_items :
+  forall m key cached out m' r fx, sync_cc m key cached out = (m', r, fx) ->
+  forall name c, Held m name c -> Held m' name c.
+Proof. exact sync_cc_keeps. Qed.
+Print Assumptions C01_reservations_survive_clustercidr_items.
+
+(* (3c): releasing a node touches only that node's associations and the keys its own pod CIDRs overlap *)
+Theorem C01_reservations_survive_release_of_other_nodes :
+  forall m node m' r, MapInv m -> wf_node node -> release_cidr m node = (m', r) ->
+  forall name k, Held m name k -> name <> n_name node ->
+    (forall c canon, In (PGood c canon) (n_cidrs node) -> overlapb c k = false) -> Held m' name k.
+Proof. exact release_cidr_keeps. Qed.
+Print Assumptions C01_reservations_survive_release_of_other_nodes.
